@@ -39,6 +39,10 @@ type TransSpec struct {
 	Foreign       []ForeignSpec     // functions / methods of other packages: fields of the generated `Record Foreign`
 	OutParams     map[string][]int  // function -> slice parameters that are output buffers (returned in front of the results)
 	ErrCodes      []ErrCode         // errors.New / fmt.Errorf texts -> error codes
+	// [func] (gen/trans_func.go) InOut (opt-in, see "In-out slice parameters" in TRANSLATOR.md): a slice parameter that a
+	// function only indexes, measures, ranges over or passes on in the same way, and whose elements it writes, is returned
+	// to the caller (after the receiver, before the results) and the caller rebinds the variable / field it passed.
+	InOut bool
 }
 
 type unsupported struct{ msg string }
@@ -55,6 +59,7 @@ const (
 	kPlace              // [seq] h := &s[i], s a slice of translated structs -> the index (trans_seq.go)
 	kErr                // [ext:T20] error -> Z: nil = 0, a sentinel `var ErrX = errors.New(..)` = a positive code
 	kOpaque             // [ext:T08] a value of a foreign type: `<type> ext'`, a field of the Record Foreign
+	kFunc               // [func] a function-typed parameter / field (trans_func.go) -> a Gallina function
 )
 
 type gtype struct {
@@ -66,8 +71,9 @@ type gtype struct {
 	str   bool        // [ext:T20] kSlice that is a Go string (immutable bytes)
 	arr   int64       // [ext:T20] kSlice that is a Go array [arr]T (isArr)
 	isArr bool
-	nest  bool   // [ext:T08] kSlice whose elements are slices of integers: list (list Z)
-	opq   string // [ext:T08] kOpaque: the Record field that is its type
+	nest  bool     // [ext:T08] kSlice whose elements are slices of integers: list (list Z)
+	opq   string   // [ext:T08] kOpaque: the Record field that is its type
+	fn    *funcSig // [func] kFunc
 }
 
 func (g gtype) coq() string {
@@ -86,6 +92,8 @@ func (g gtype) coq() string {
 		return g.st.name
 	case kOpaque: // [ext:T08]
 		return "(" + g.opq + " ext')"
+	case kFunc:
+		return g.fn.coq()
 	}
 	return "Z"
 }
@@ -103,6 +111,8 @@ func (g gtype) zero() string {
 		return "[]"
 	case kStruct:
 		return "zero_" + g.st.name
+	case kFunc:
+		return "nil_func_is_not_modelled" // never emitted: declarations needing it are refused (trans_func.go)
 	}
 	return "0"
 }
@@ -134,6 +144,9 @@ type funcInfo struct {
 	// [ext:T08]
 	foreign bool  // calls a foreign function (directly or through calls): takes `ext' : Foreign`
 	outs    []int // slice parameters that are output buffers
+	// [func] (trans_func.go)
+	noesc []bool // per parameter: a slice the function neither keeps, reslices, returns nor reassigns
+	inout []bool // per parameter: noesc and written in place (directly or through calls): returned to the caller
 }
 
 type Translator struct {
@@ -148,6 +161,7 @@ type Translator struct {
 	seq     *seqState       // [seq] sequential reading of atomics, places, timed tails (trans_seq.go)
 	ext20                   // [ext:T20] state of gen/trans_ext20.go
 	ext08                   // [ext:T08] state of gen/trans_ext08.go
+	inOut   bool            // [func] TransSpec.InOut
 }
 
 type stubImporter struct{}
@@ -238,6 +252,10 @@ func (t *Translator) typeOf(ty types.Type, n ast.Node) gtype {
 				return gtype{k: kStruct, st: si, ptr: true}
 			}
 		}
+	case *types.Signature:
+		if fs := t.funcSigOf(x, n); fs != nil {
+			return gtype{k: kFunc, fn: fs}
+		}
 	case *types.Named:
 		if si := t.structs[x.Origin().Obj()]; si != nil {
 			return gtype{k: kStruct, st: si}
@@ -296,7 +314,7 @@ func Translate(repo string, spec TransSpec) (out string, err error) {
 		return "", e
 	}
 	t := &Translator{fset: p.Fset, repo: repo, structs: map[*types.TypeName]*structInfo{}, funcs: map[*types.Func]*funcInfo{},
-		byName: map[string]*ast.FuncDecl{}, global: map[string]bool{}}
+		byName: map[string]*ast.FuncDecl{}, global: map[string]bool{}, inOut: spec.InOut}
 	defer func() {
 		if r := recover(); r != nil {
 			if u, ok := r.(unsupported); ok {
@@ -429,12 +447,16 @@ func (si *structInfo) emit() string {
 		}
 		b.WriteString(".\n")
 	}
-	fmt.Fprintf(&b, "Definition zero_%s : %s := mk%s", si.name, si.name, si.name)
-	for _, ft := range si.ftypes {
-		b.WriteString(" " + ft.zero())
+	if si.hasFunc() { // a nil function value is not modelled: no zero value (declarations needing one are refused)
+		fmt.Fprintf(&b, "#[export] Hint Unfold")
+	} else {
+		fmt.Fprintf(&b, "Definition zero_%s : %s := mk%s", si.name, si.name, si.name)
+		for _, ft := range si.ftypes {
+			b.WriteString(" " + ft.zero())
+		}
+		b.WriteString(".\n")
+		fmt.Fprintf(&b, "#[export] Hint Unfold zero_%s", si.name)
 	}
-	b.WriteString(".\n")
-	fmt.Fprintf(&b, "#[export] Hint Unfold zero_%s", si.name)
 	for _, f := range si.fields {
 		fmt.Fprintf(&b, " set_%s_%s %s_%s", si.name, f, si.name, f)
 	}
@@ -483,6 +505,9 @@ func (t *Translator) addFunc(key string) *funcInfo {
 		g := t.typeOf(rv.Type(), fd)
 		if g.k == kStruct && g.ptr {
 			t.fail(fd, "pointer result of %s", key)
+		}
+		if g.k == kFunc {
+			t.fail(fd, "function-typed result of %s", key)
 		}
 		fi.results = append(fi.results, g)
 	}
@@ -596,6 +621,11 @@ func (t *Translator) assigned(n ast.Node, set map[types.Object]bool) {
 					}
 				}
 			}
+			for _, a := range t.writtenArgs(x) { // [func] in-out slice arguments (trans_func.go)
+				if o, _ := t.rootObj(a); o != nil {
+					set[o] = true
+				}
+			}
 			if fn, _ := t.calleeOf(x); fn != nil { // [ext:T20] package-level state written by the callee
 				if fi := t.funcs[fn]; fi != nil {
 					for g := range fi.gwrites {
@@ -641,11 +671,17 @@ func (t *Translator) analyse() {
 						fi.callees[t.funcFor(fn, c)] = true
 					}
 				}
+				if id, ok := m.(*ast.Ident); ok { // a package function used as a value (trans_func.go)
+					if fn := t.funcValueRef(id); fn != nil {
+						fi.callees[t.funcFor(fn, id)] = true
+					}
+				}
 				return true
 			})
 			fi.loops = hasLoop(t.body(fi))
 		}
 	}
+	t.analyseInOut()
 	for changed := true; changed; {
 		changed = false
 		for _, fi := range t.funcs {
